@@ -835,7 +835,17 @@ def State.read (s : State) (id budget : Nat) : Option (State × ReadRes) :=
 def State.queueStopSending (s : State) (c : Bool) (id code : Nat) : State :=
   if c then { s with rtx := { s.rtx with stopSending := s.rtx.stopSending ++ [(id, code)] } } else s
 
-/-- `RecvStream::stop(error_code)`: `false` = ClosedStream -/
+/-- `if c { self.state.queue_max_stream_id(self.pending); }` (the result is discarded) -/
+def State.queueMaxIf (s : State) (c : Bool) : Option State :=
+  if c then
+    match s.queueMaxStreamId with
+    | none => none
+    | some (s', _) => some s'
+  else some s
+
+/-- `RecvStream::stop(error_code)`: `false` = ClosedStream.  A stream whose final size is known is
+    freed at once (`stream_recv_freed`) and the slot it gives back is announced at once
+    (`queue_max_stream_id`, as in `RecvStream::received_reset`). -/
 def State.stop (s : State) (id code : Nat) : Option (State × Bool) :=
   match s.getOrInsertRecv id with
   | none => some (s, false)
@@ -847,9 +857,12 @@ def State.stop (s : State) (id code : Nat) : Option (State × Bool) :=
       match ((s1.putRecv id rs').queueStopSending stopSending id code).freeRecvIf (!rs'.finalOffsetUnknown) id with
       | none => none
       | some s4 =>
-        match s4.creditAndQueue credits with
+        match s4.queueMaxIf (!rs'.finalOffsetUnknown) with
         | none => none
-        | some (s5, _) => some (s5, true)
+        | some s4q =>
+          match s4q.creditAndQueue credits with
+          | none => none
+          | some (s5, _) => some (s5, true)
 
 /-- `RecvStream::received_reset`: `none` inside = ClosedStream -/
 def State.recvReceivedReset (s : State) (id : Nat) : Option (State × Option (Option Nat)) :=
